@@ -415,6 +415,52 @@ class CombinatorList:
             raise CheckerError('for/else over combinators')
 
 
+def _comb_comprehension(self, I, e, env, module):
+    """[f(c) for c in combinators]: the element expression is evaluated once for an ARBITRARY element of the list (same rule as the for loop)"""
+    import ast
+    from vc.pyvc import Env as _Env
+    g = e.generators[0]
+    if g.ifs or not isinstance(g.target, ast.Name):
+        raise CheckerError('comprehension over `combinators` with a filter or a pattern target')
+    log = []
+    sub = _Env(env)
+    sub.set(g.target.id, OpaqueCombinator(log))
+    v = I.eval(e.elt, sub, module)
+    return MappedCombinators(self, v, log)
+
+
+CombinatorList.comprehension = _comb_comprehension
+
+
+class MappedCombinators:
+    """the list [f(c) for c in combinators], known through its arbitrary element; filtering it gives the contribution of that element to the result"""
+    def __init__(self, cl, value, log):
+        self.cl, self.value, self.log = cl, value, log
+
+    def comprehension(self, I, e, env, module):
+        import ast
+        from vc.pyvc import Env as _Env
+        g = e.generators[0]
+        if not isinstance(g.target, ast.Name) or not isinstance(e.elt, ast.Name) or e.elt.id != g.target.id:
+            raise CheckerError('comprehension over the mapped combinators other than [r for r in xs if cond(r)]')
+        sub = _Env(env)
+        sub.set(g.target.id, self.value)
+        keep = all(I.truth(I.eval(c, sub, module), c) for c in g.ifs)
+        out = [self.value] if keep else []
+        self.cl.iterations.append(dict(log=self.log, before={'$result': []}, after={'$result': list(out)}))
+        return out
+
+    def for_loop(self, I, st, env, module, qual):
+        names = [n for n in env.vars if isinstance(env.vars[n], list)]
+        before = {n: list(env.vars[n]) for n in names}
+        I.assign(st.target, self.value, env, module)
+        I.exec_block(st.body, env, module, qual)
+        after = {n: list(env.vars[n]) for n in names if isinstance(env.vars.get(n), list)}
+        self.cl.iterations.append(dict(log=self.log, before=before, after=after))
+        if st.orelse:
+            raise CheckerError('for/else over the mapped combinators')
+
+
 class ApplyBinary(Contract):
     def __init__(self, rel, lang):
         self.rel, self.qualname, self.lang = rel, 'apply_binary_rules', lang
